@@ -21,7 +21,14 @@
     * `parse_source_linear`: the whole pipeline, run with the budget `16n + 72` for the file parser and
       for each expression (and `7n + 8` for the lexer), never answers `fuelOut`;
     * `parse_source_budgets`: the budgets that `parseSource` — the function the correspondence checks run
-      against the real code — hands out are at most `16n + 72`, and it never answers `fuelOut`.
+      against the real code — hands out are at most `16n + 72`, and it never answers `fuelOut`;
+    * `parseFileFuel_mono` / `parseExprFuel_mono` (from Lemmas/FuelMono.lean): a larger budget gives the
+      same answer, hence `parseSourceFuel_eq`: the pipeline on the budget `16n + 72` IS `parseSource`
+      (`parse_source_linear'`), and `parseExprSourceFuel_eq` for the standalone expression;
+    * `parse_expr_linear`: the same end-to-end statement for `parse.Expr(str)` (lexer in expression
+      mode, expression parser, drain);
+    * `runPos_sorted`, `lexAll_positions_sorted`: the positions at which the state functions of a run
+      are entered never go back.
 
   What is NOT counted.
     * The rune reads INSIDE one state function.  Each state function's inner loop (`scanWhile`,
@@ -29,9 +36,9 @@
       recursion on the remaining input `len - pos` and every iteration advances `pos` (`next_rem_lt`);
       `pos` moves back only by `backup` (at most once per `next`, by the width of that rune), by the
       `l.pos--` of lexSoyDoc (once per line) and by the look-ahead of `maybeEmitText`.  The state
-      lemmas show `pos` never decreases across a state call (`Post.of`: `l.pos ≤ l'.pos`), so the reads
-      of one call are bounded by `(pos_after - pos_before) + a constant` — this is prose, not a theorem:
-      the models carry no read counter.
+      lemmas show `pos` never decreases across a state call (`runPos_sorted`, below), so the advances of
+      the calls sum to at most `n`; that the reads of one call are its advance plus a constant of
+      look-ahead is prose, not a theorem: the models carry no read counter.
     * String building: the cost of `tok.val` concatenation, `strings.Join`, the `String()` builders (the
       quadratic defects found at /repo 96546c0 and c3ff971 were there).  A count over state calls and
       tokens cannot see it; it is covered by the C05scale allocation probe only.
@@ -266,5 +273,93 @@ theorem parse_source_linear' (pf : Bytes → Option UInt64) (input : Bytes) :
     parseSource pf input = parseSourceFuel pf (16 * input.length + 72) input ∧
     parseSource pf input ≠ .error .fuelOut :=
   ⟨(parseSourceFuel_eq pf input).symm, parse_source_total pf input⟩
+
+/-! ## What one state-function call reads (no counter: over the existing invariant)
+
+  `runPos` lists the position `pos` of the lexer at the ENTRY of each state-function call of a run.
+  The list is sorted and stays inside `[0, n]`: a state function never hands over to the next one
+  behind the position it was entered at.  So the advances `pos_(i+1) - pos_i` of the calls are
+  non-negative and sum to at most `n` (they telescope); the look-ahead a call reads beyond the position
+  it hands over is what its `backup`s give back — at most one rune per `next` (`Lexer.backup`:
+  `pos - width`), two bytes in `maybeEmitText(l, 2)`, six in `lexSoyDocParam`.  That last part is prose:
+  the model has no read counter. -/
+
+/-- the positions at which the state functions of a run are entered -/
+def runPos : Nat → Lex.St → Lex.Lexer → List Int
+  | 0, _, l => [l.pos]
+  | k + 1, s, l =>
+    match Lex.step s l with
+    | some (some s', l') => l.pos :: runPos k s' l'
+    | _ => [l.pos]
+
+theorem pos_le_of_phi_lt {n : Int} {s s' : Lex.St} {l l' : Lex.Lexer} (h1 : l.pos ≤ n) (h2 : l'.pos ≤ n)
+    (h : Lex.phi n s' l' < Lex.phi n s l) : l.pos ≤ l'.pos := by
+  have a := Lex.rankA_le s
+  have b := Lex.rankB_le s
+  unfold Lex.phi at h
+  by_cases hlt : l'.pos < l.pos
+  · rw [if_pos (show l'.pos < n by omega)] at h
+    split at h <;> omega
+  · omega
+
+/-- every state function is entered at or behind the position the one before it was entered at, inside the input -/
+theorem runPos_sorted (n : Int) : ∀ (k : Nat) (s : Lex.St) (l : Lex.Lexer), Lex.Good n l → Lex.Extra s l →
+    (∀ p ∈ runPos k s l, l.pos ≤ p ∧ p ≤ n) ∧ (runPos k s l).Pairwise (· ≤ ·) := by
+  intro k
+  induction k with
+  | zero =>
+    intro s l hg _
+    simp only [runPos, List.mem_singleton, forall_eq, List.pairwise_cons, List.not_mem_nil, false_implies,
+      implies_true, List.Pairwise.nil, and_self, and_true]
+    exact ⟨Int.le_refl _, hg.2.2.2⟩
+  | succ k ih =>
+    intro s l hg hx
+    obtain ⟨⟨s', l'⟩, hstep, hpost⟩ := Lex.step_ok s hg hx
+    unfold runPos
+    rw [hstep]
+    cases s' with
+    | none =>
+      simp only [List.mem_singleton, forall_eq, List.pairwise_cons, List.not_mem_nil, false_implies,
+        implies_true, List.Pairwise.nil, and_self, and_true]
+      exact ⟨Int.le_refl _, hg.2.2.2⟩
+    | some s'' =>
+      obtain ⟨⟨hg', hx'⟩, hlt⟩ := hpost.1 s'' rfl
+      dsimp only at hg' hx' hlt
+      have hle : l.pos ≤ l'.pos := pos_le_of_phi_lt hg.2.2.2 hg'.2.2.2 hlt
+      obtain ⟨hall, hpw⟩ := ih s'' l' hg' hx'
+      refine ⟨?_, ?_⟩
+      · intro p hp
+        simp only [List.mem_cons] at hp
+        rcases hp with rfl | hp
+        · exact ⟨Int.le_refl _, hg.2.2.2⟩
+        · have := hall p hp
+          exact ⟨by omega, this.2⟩
+      · rw [List.pairwise_cons]
+        refine ⟨fun p hp => ?_, hpw⟩
+        have := hall p hp
+        omega
+
+/-- for the run of `lexAll`: the entry positions of its (at most `7n + 8`) state-function calls are sorted, in `[0, n]` -/
+theorem lexAll_positions_sorted (input : Bytes) (exprMode : Bool) :
+    let ps := runPos (Lex.fuelFor input.length) (if exprMode then .insideTag else .text) (Lex.initLexer input)
+    ps.Pairwise (· ≤ ·) ∧ (∀ p ∈ ps, 0 ≤ p ∧ p ≤ input.length) ∧ ps.length ≤ Lex.fuelFor input.length + 1 := by
+  intro ps
+  obtain ⟨hall, hpw⟩ := runPos_sorted (input.length : Int) (Lex.fuelFor input.length)
+    (if exprMode then .insideTag else .text) (Lex.initLexer input) (init_good input) (init_extra input exprMode)
+  refine ⟨hpw, fun p hp => ?_, ?_⟩
+  · have := hall p hp
+    have h0 : (Lex.initLexer input).pos = 0 := rfl
+    omega
+  · have hlen : ∀ (k : Nat) (s : Lex.St) (l : Lex.Lexer), (runPos k s l).length ≤ k + 1 := by
+      intro k
+      induction k with
+      | zero => intro s l; simp [runPos]
+      | succ k ih =>
+        intro s l
+        unfold runPos
+        split
+        · rename_i s' l' _; simp only [List.length_cons]; have := ih s' l'; omega
+        · simp
+    exact hlen _ _ _
 
 end SoyVerif.Props.C05
